@@ -96,16 +96,34 @@ var shapes = func() []shape {
 		{"t", time.Unix(0, 0).UTC(), false, false}, {"pt", &time.Time{}, false, false}, {"dur", time.Second, false, false}, {"err", fmt.Errorf("e"), false, false},
 		{"fn", func() {}, false, false}, {"fn1", func(int) string { return "r" }, false, false}, {"fnv", func(...interface{}) (interface{}, error) { return 1, nil }, false, false}, {"nfn", nf, false, false},
 		{"ch", make(chan int), false, false}, {"nch", (chan int)(nil), false, false},
+		// lists above the 50-element threshold of the `in` fast path, holding unhashable elements
+		{"big", bigList(60, []interface{}{1}), false, false}, {"bigm", bigList(51, map[string]interface{}{"k": 1}), false, false}, {"bigplain", bigList(64, 3), false, false},
+		{"bigt", func() [][]int {
+			r := make([][]int, 60)
+			for i := range r {
+				r[i] = []int{i}
+			}
+			return r
+		}(), false, false},
 	}
 }()
 
+func bigList(n int, odd interface{}) []interface{} {
+	r := make([]interface{}, n)
+	for i := range r {
+		r[i] = i
+	}
+	r[n/2] = odd
+	return r
+}
+
 // second-argument shapes
-var bShapes = []string{"i1", "nil", "s", "l", "m", "im3", "ls", "st"}
+var bShapes = []string{"i1", "nil", "s", "l", "m", "im3", "ls", "st", "imax", "imin", "big"}
 
 // first-argument shapes of the quick tier (thorough: all): one representative per kind
 var aQuick = []string{"nil", "true", "i1", "im3", "u8", "imax", "f", "nan", "s0", "s", "sbad", "sfmt", "named",
-	"l0", "l", "ls", "arr", "m", "msi", "mis", "mii", "st", "npst", "ns", "fn"}
-var bQuick = []string{"i1", "nil", "s", "l"}
+	"l0", "l", "ls", "arr", "m", "msi", "mis", "mii", "st", "npst", "ns", "fn", "big", "bigt"}
+var bQuick = []string{"i1", "nil", "s", "l", "imax"}
 
 var shapeByName = func() map[string]*shape {
 	m := map[string]*shape{}
